@@ -1,16 +1,22 @@
 mod bl;
+mod gen;
 mod imp;
 mod oracle;
 mod refs;
+mod search;
 mod tok;
 
 fn main() {
     let args: Vec<String> = std::env::args().collect();
+    let tier = |i: usize| args.get(i).map(|s| s == "thorough").unwrap_or(false);
+    let seed = |i: usize| args.get(i).and_then(|s| s.parse::<u64>().ok()).unwrap_or(1);
     match args.get(1).map(|s| s.as_str()) {
         Some("impl") => imp::run_all(),
         Some("oracle") => oracle::serve(),
+        Some("gen") => print!("{}", gen::generate(&args[2], tier(3), seed(4)).s),
+        Some("search") => search::run(&args[2], tier(3), seed(4)),
         _ => {
-            eprintln!("usage: blsdiff impl|oracle|gen|search ...");
+            eprintln!("usage: blsdiff impl|oracle|gen <prop> <tier> <seed>|search <prop> <tier> <seed>");
             std::process::exit(2);
         }
     }
